@@ -58,6 +58,29 @@ def _c01() -> List[Obl]:
     for fn in ("lemma_history", "lemma_prefix", "lemma_flush_idempotent"):
         out.append(Obl(id=f"c01.{fn}", prop="C01", engine="verus", target=f"history:{fn}", fns=[],
                        note="pure lemma: the per-operation contracts compose over every history and every prefix of it"))
+    out += _verus_writer_unary("C01")
+    return out
+
+
+WU_LEMMAS = ("lemma_wbit", "lemma_push", "lemma_full_pending", "lemma_be_append_unary", "lemma_be_shift_out", "lemma_be_one_is_unary",
+             "lemma_le_append_unary", "lemma_le_shift_out", "lemma_le_top_is_unary", "lemma_zero_word", "lemma_zeros_unary")
+
+
+def _verus_writer_unary(prop: str) -> List[Obl]:
+    """Unbounded proof of BufBitWriter::write_unary (every value, zero-word loop by invariant), one Verus unit per word type."""
+    out = []
+    pl = prop.lower()
+    for w in WWORDS:
+        bits = w[1:]
+        unit = f"writer_unary@W={w};BITS={bits}"
+        for el, E in ENDIANS:
+            out.append(Obl(id=f"{pl}.verus.write_unary.{E}.{w}", prop=prop, engine="verus", target=f"{unit}:write_unary_{el}",
+                           fns=[f"BufBitWriter<{E},_<{w}>>::write_unary"],
+                           note="real text, WW::Word instantiated to the word type; every value < 2^64-1, every Inv_W state; view' = view ++ 0^value 1 (unbounded zero-word loop)"))
+        for l in WU_LEMMAS:
+            out.append(Obl(id=f"{pl}.verus.write_unary.{l}.{w}", prop=prop, engine="verus", target=f"{unit}:{l}", fns=[]))
+        out.append(Obl(id=f"{pl}.std_spec.byte_order.{w}", prop=prop, engine="kani", target=f"obl_stdspec::std_spec_byte_order_{w}", fns=[f"{w}::to_be", f"{w}::to_le"],
+                       note="discharges the byte-order assume_specification/axioms of the Verus unit and links its view to the canonical byte image"))
     return out
 
 
@@ -117,8 +140,40 @@ def _reader(prop: str, only: str, which) -> List[Obl]:
     return out
 
 
+RU_LEMMAS = ("lemma_wbit_bb", "lemma_wbit_w", "lemma_lz_bb", "lemma_lz_w", "lemma_tz_bb", "lemma_tz_w", "lemma_shl1_bits", "lemma_shl_bits",
+             "lemma_shr1_bits", "lemma_shr_bits", "lemma_upcast_bits", "lemma_zero_bits", "lemma_sbit_word")
+BBTYPE = {"u8": "u16", "u16": "u32", "u32": "u64", "u64": "u128"}
+
+
+def _verus_reader_unary(prop: str, fns=("read_unary", "skip_bits"), lemmas=True) -> List[Obl]:
+    """Unbounded proofs of BufBitReader::{read_unary, skip_bits} (word loops by invariant), one Verus unit per word type."""
+    out = []
+    pl = prop.lower()
+    for w in RWORDS:
+        n = int(w[1:])
+        bb = BBTYPE[w]
+        unit = f"reader_unary@W={w};N={n};BB={bb};M={2 * n};LZINC={'lz128.inc' if bb == 'u128' else 'empty.inc'}"
+        for el, E in ENDIANS:
+            for fn in fns:
+                out.append(Obl(id=f"{pl}.verus.{fn}.{E}.{w}", prop=prop, engine="verus", target=f"{unit}:{fn}_{el}",
+                               fns=[f"BufBitReader<{E},_<{w}>>::{fn}"],
+                               note="real text, WR::Word / BB<WR> instantiated; every Inv_R state, every stream shorter than 2^64 bits, unbounded word loop; "
+                                    "result, position and Inv_R' as in DESIGN 2.1"))
+        if lemmas:
+            for l in RU_LEMMAS:
+                out.append(Obl(id=f"{pl}.verus.reader.{l}.{w}", prop=prop, engine="verus", target=f"{unit}:{l}", fns=[]))
+            out.append(Obl(id=f"{pl}.std_spec.byte_order.{w}", prop=prop, engine="kani", target=f"obl_stdspec::std_spec_byte_order_{w}", fns=[f"{w}::to_be", f"{w}::to_le"],
+                           note="discharges the byte-order assume_specification of the Verus unit and links its view to the canonical byte image"))
+            for t in (w, bb):
+                out.append(Obl(id=f"{pl}.std_spec.count_zeros.{w}.{t}", prop=prop, engine="kani", target=f"obl_stdspec::std_spec_count_zeros_{t}",
+                               fns=[f"{t}::leading_zeros", f"{t}::trailing_zeros"],
+                               note="discharges the count-zeros axioms the Verus unit uses (vstd's for u8..u64, lz128.inc for u128)"))
+    return out
+
+
 def _c02() -> List[Obl]:
-    out = _reader("C02", r"c02|confirm", ["new", "read_bits", "peek_bits", "skip_bits_after_peek", "read_unary.K2", "read_unary.K4",
+    out = _verus_reader_unary("C02")
+    out += _reader("C02", r"c02|confirm", ["new", "read_bits", "peek_bits", "skip_bits_after_peek", "read_unary.K2", "read_unary.K4",
                                  "skip_bits", "skip_bits.K2", "skip_bits.K4", "clone", "confirm"])
     # zero extension of the memory backend (contract of MemWordReader<_,_,true>)
     for w in ["u8", "u64"]:
@@ -128,7 +183,8 @@ def _c02() -> List[Obl]:
 
 
 def _c07() -> List[Obl]:
-    out = _reader("C07", r"c07|advance|positioned|move|confirm: position", ["read_bits", "peek_bits", "skip_bits_after_peek", "read_unary.K2",
+    out = _verus_reader_unary("C07", lemmas=False)
+    out += _reader("C07", r"c07|advance|positioned|move|confirm: position", ["read_bits", "peek_bits", "skip_bits_after_peek", "read_unary.K2",
                                                           "skip_bits", "skip_bits.K2", "bit_pos", "set_bit_pos", "confirm"])
     # the seek contracts of the backends the readers are used with
     for w in ["u8", "u64"]:
